@@ -287,7 +287,10 @@ fn gen_case(r: &mut Rng, p: &Params, out: &mut Vec<String>) {
             2..=5 => {
                 let pk = *r.pick(&PKS);
                 let cands: Vec<&(String, String)> = g.contracts.iter().filter(|c| c.1 != "controller").collect();
-                let (target, kind) = if cands.is_empty() || r.chance(8) {
+                let (target, kind) = if r.chance(4) {
+                    // an explicit address instead of an inscription id: the zero address, one without code, a precompile
+                    (r.pick(&["0x0000000000000000000000000000000000000000", "0x00000000000000000000000000000000000000aa", "0x0000000000000000000000000000000000000004"]).to_string(), "none".to_string())
+                } else if cands.is_empty() || r.chance(8) {
                     ("none".to_string(), "none".to_string())
                 } else {
                     let c = *r.pick(&cands);
@@ -512,6 +515,8 @@ struct Ctx {
     signed_txid: BTreeMap<(String, u64), String>, // (signer address, nonce) -> Bitcoin txid supplied with the latest submission
     /// tx hashes handed out more than once (known finding F11), with the blocks they were reported in
     dup_blocks: BTreeSet<u64>,
+    /// a handler panicked: the shipped binary would have aborted, nothing after that point is compared
+    dead: bool,
 }
 
 fn params_for(ctx: &Ctx, op: &str, f: &BTreeMap<String, String>) -> Option<(String, Value)> {
@@ -549,8 +554,8 @@ fn params_for(ctx: &Ctx, op: &str, f: &BTreeMap<String, String>) -> Option<(Stri
             let data = hex::decode(g("data")).unwrap_or_default();
             let (d, b) = data_fields(&data, &g("field"));
             let to = g("to");
-            let insc = if to == "none" { Value::Null } else { json!(to) };
-            Some(("brc20_call".into(), json!([g("pk"), Value::Null, insc, d, b, num("ts"), g("hash"), num("idx"), g("insc"), auto_len(&data), g("txid")])))
+            let (addr, insc) = if to == "none" { (Value::Null, Value::Null) } else if to.starts_with("0x") { (json!(to), Value::Null) } else { (Value::Null, json!(to)) };
+            Some(("brc20_call".into(), json!([g("pk"), addr, insc, d, b, num("ts"), g("hash"), num("idx"), g("insc"), auto_len(&data), g("txid")])))
         }
         "deposit" | "withdraw" => Some((
             format!("brc20_{}", op),
@@ -745,11 +750,14 @@ pub fn exec(lines: &[String], out: &mut Out, scratch: &Path) {
                 chain_id: v::CONFIG.read().chain_id,
                 dup_blocks: BTreeSet::new(),
                 kinds: BTreeMap::new(),
-                inscribed_len: BTreeMap::new(), signed_txid: BTreeMap::new(),
+                inscribed_len: BTreeMap::new(), signed_txid: BTreeMap::new(), dead: false,
             });
             continue;
         }
         let Some(c) = ctx.as_mut() else { continue };
+        if c.dead {
+            continue;
+        }
         c.n_inst = n_inst;
         exec_line(c, line, out);
         n_inst = c.n_inst;
@@ -839,7 +847,19 @@ fn exec_line(ctx: &mut Ctx, line: &str, out: &mut Out) {
             let class = err_class(&resp);
             let after = ctx.main.state();
             if resp.panicked {
-                out.oracle_fail(&case, "panic", &format!("{} panicked: {}", method, line));
+                // known finding F10: a signed transaction parked after the tip was finalised is a table write stamped
+                // height + 1 with no block under construction; a reorg to exactly (height - 10) is then accepted and
+                // panics inside the pending-pool table
+                let h = ctx.height.unwrap_or(0);
+                let parked_above_tip = ctx.history.iter().any(|(b, l, _)| *b == h + 1 && l.starts_with("transact ") && l.contains(" exp=0"));
+                let family = if op == "reorg" && parked_above_tip && before["lbi"]["waiting_tx_count"].as_u64() == Some(0) {
+                    "reorg-panicked-parked-stamp"
+                } else if op == "reorg" {
+                    "reorg-panicked"
+                } else {
+                    "panic"
+                };
+                out.oracle_fail(&case, family, &format!("{} panicked: {}", method, line));
             }
             // C05: an error response leaves the instance exactly as it was
             if class.starts_with("err") && digest(&before) != digest(&after) {
@@ -867,6 +887,12 @@ fn exec_line(ctx: &mut Ctx, line: &str, out: &mut Out) {
             }
             let evs: Vec<String> = events.iter().filter(|e| e.starts_with("S ") || e.starts_with("X ")).cloned().collect();
             let model_line = format!("{}{} sel=ok pkok=true ## {}", line, extra, evs.join(" ## "));
+            if resp.panicked {
+                // the process is gone at this point: the answer is the panic itself, the case ends here
+                out.line(&model_line, "panic");
+                ctx.dead = true;
+                return;
+            }
             out.line(&model_line, &format!("{} | {}", class, digest(&after)));
 
             // bookkeeping + oracles on accepted indexer ops
@@ -1398,6 +1424,75 @@ fn check_coherence(ctx: &mut Ctx, out: &mut Out) {
                 }
             }
         }
+        // the raw encodings decode to the same data
+        {
+            use alloy::consensus::{Block, Header, ReceiptWithBloom, TxEnvelope};
+            use alloy::rlp::Decodable;
+            let hx = |v: Option<Value>| v.and_then(|x| x.as_str().map(|s| hex::decode(s.trim_start_matches("0x")).unwrap_or_default()));
+            let hexn = |v: &Value| v.as_str().map(|s| u64::from_str_radix(s.trim_start_matches("0x"), 16).unwrap_or(u64::MAX));
+            let lower = |v: &Value| v.as_str().map(|s| s.to_lowercase());
+            if let Some(raw) = hx(inst.call("debug_getRawBlock", json!([format!("{}", n)])).ok) {
+                match Block::<TxEnvelope>::decode(&mut raw.as_slice()) {
+                    Err(e) => fails.push((n, format!("raw block {} does not decode: {}", n, e))),
+                    Ok(blk) => {
+                        let h = &blk.header;
+                        if Some(h.number) != hexn(&b["number"]) || Some(h.timestamp) != hexn(&b["timestamp"]) || Some(h.gas_used) != hexn(&b["gasUsed"])
+                            || Some(format!("{:?}", h.parent_hash)) != lower(&b["parentHash"]) || Some(format!("{:?}", h.transactions_root)) != lower(&b["transactionsRoot"])
+                        {
+                            fails.push((n, format!("raw block {}: header fields differ from eth_getBlockByNumber", n)));
+                        }
+                        let rtxs: Vec<&TxEnvelope> = blk.body.transactions.iter().collect();
+                        if rtxs.len() != txs.len() {
+                            fails.push((n, format!("raw block {} holds {} transactions, the block lists {}", n, rtxs.len(), txs.len())));
+                        }
+                        for (i, (rt, jt)) in rtxs.iter().zip(txs.iter()).enumerate() {
+                            if let TxEnvelope::Legacy(signed) = rt {
+                                let t = signed.tx();
+                                let to = t.to.to().map(|a| format!("{:?}", a));
+                                let jto = lower(&jt["to"]);
+                                let jin = jt["input"].as_str().map(|s| s.to_lowercase());
+                                if Some(t.nonce) != hexn(&jt["nonce"]) || to != jto || Some(format!("0x{}", hex::encode(&t.input))) != jin || Some(t.gas_limit) != hexn(&jt["gas"]) {
+                                    fails.push((n, format!("raw block {} tx {}: nonce/to/input/gas {:?}/{:?}/../{} vs the transaction served by hash {:?}/{:?}/../{:?}", n, i, t.nonce, to, t.gas_limit, jt["nonce"], jt["to"], jt["gas"])));
+                                }
+                            } else {
+                                fails.push((n, format!("raw block {} tx {} is not a legacy transaction", n, i)));
+                            }
+                        }
+                    }
+                }
+                if let Some(rh) = hx(inst.call("debug_getRawHeader", json!([format!("{}", n)])).ok) {
+                    match Header::decode(&mut rh.as_slice()) {
+                        Ok(hd) if Some(hd.number) == hexn(&b["number"]) && Some(format!("{:?}", hd.parent_hash)) == lower(&b["parentHash"]) => {}
+                        _ => fails.push((n, format!("raw header {} does not decode to the block's header", n))),
+                    }
+                }
+            }
+            if let Some(Value::Array(rrs)) = inst.call("debug_getRawReceipts", json!([format!("{}", n)])).ok {
+                if rrs.len() != txs.len() {
+                    fails.push((n, format!("{} raw receipts for {} transactions in block {}", rrs.len(), txs.len(), n)));
+                }
+                for (i, (rr, jt)) in rrs.iter().zip(txs.iter()).enumerate() {
+                    let bytes = rr.as_str().map(|s| hex::decode(s.trim_start_matches("0x")).unwrap_or_default()).unwrap_or_default();
+                    let Some(rc) = jt["hash"].as_str().and_then(|h| inst.call("eth_getTransactionReceipt", json!([h])).ok).filter(|r| !r.is_null()) else { continue };
+                    match ReceiptWithBloom::<alloy::consensus::Receipt>::decode(&mut bytes.as_slice()) {
+                        Err(e) => fails.push((n, format!("raw receipt {} of block {} does not decode: {}", i, n, e))),
+                        Ok(r) => {
+                            let jl = rc["logs"].as_array().cloned().unwrap_or_default();
+                            let same_logs = r.receipt.logs.len() == jl.len()
+                                && r.receipt.logs.iter().zip(jl.iter()).all(|(a, b)| {
+                                    Some(format!("{:?}", a.address)) == lower(&b["address"])
+                                        && a.data.topics().iter().map(|t| format!("{:?}", t)).collect::<Vec<_>>() == b["topics"].as_array().map(|ts| ts.iter().filter_map(|t| t.as_str().map(|s| s.to_lowercase())).collect::<Vec<_>>()).unwrap_or_default()
+                                        && Some(format!("0x{}", hex::encode(&a.data.data))) == b["data"].as_str().map(|s| s.to_lowercase())
+                                });
+                            let status = rc["status"].as_str() == Some("0x1");
+                            if r.receipt.status.coerce_status() != status || Some(r.receipt.cumulative_gas_used) != hexn(&rc["cumulativeGasUsed"]) || !same_logs {
+                                fails.push((n, format!("raw receipt {} of block {} differs from the receipt served by hash (status / cumulative gas / logs)", i, n)));
+                            }
+                        }
+                    }
+                }
+            }
+        }
         let hexn = |v: &Value| v.as_str().map(|s| u64::from_str_radix(s.trim_start_matches("0x"), 16).unwrap_or(u64::MAX));
         if hexn(&b["gasUsed"]) != Some(cum) {
             fails.push((n, format!("block {} gasUsed {:?} != sum of its receipts {}", n, b["gasUsed"], cum)));
@@ -1894,7 +1989,7 @@ pub fn exec_locks(lines: &[String], out: &mut Out, scratch: &Path, out_dir: &Pat
                 case: line.split(' ').nth(1).unwrap_or("?").to_string(), history: Vec::new(), labels: BTreeMap::new(),
                 known_addrs: BTreeSet::new(), known_hashes: Vec::new(), receipts: BTreeMap::new(), insc_of: BTreeMap::new(),
                 height: None, chain_id: v::CONFIG.read().chain_id, dup_blocks: BTreeSet::new(), kinds: BTreeMap::new(),
-                inscribed_len: BTreeMap::new(), signed_txid: BTreeMap::new(),
+                inscribed_len: BTreeMap::new(), signed_txid: BTreeMap::new(), dead: false,
             });
             out.case(line.split(' ').nth(1).unwrap_or("?"));
             continue;
@@ -1953,7 +2048,7 @@ fn fresh_ctx(main: Inst, twin: Inst, rt: &Arc<tokio::runtime::Runtime>, scratch:
         main, twin, twin_mode: 0, rt: rt.clone(), scratch: scratch.to_path_buf(), n_inst, case: case.to_string(),
         history: Vec::new(), labels: BTreeMap::new(), known_addrs: BTreeSet::new(), known_hashes: Vec::new(),
         receipts: BTreeMap::new(), insc_of: BTreeMap::new(), height: None, chain_id: v::CONFIG.read().chain_id,
-        dup_blocks: BTreeSet::new(), kinds: BTreeMap::new(), inscribed_len: BTreeMap::new(), signed_txid: BTreeMap::new(),
+        dup_blocks: BTreeSet::new(), kinds: BTreeMap::new(), inscribed_len: BTreeMap::new(), signed_txid: BTreeMap::new(), dead: false,
     }
 }
 
